@@ -589,3 +589,16 @@ Example C06_report_nonvacuous :
   | _ => False
   end.
 Proof. vm_compute. repeat split. Qed.
+
+(* Every dollar figure of the default view (rows and footer) is a cent text,
+   i.e. dollar2_text of some figure: byte-for-byte determined by values. *)
+Theorem C06_default_view_is_cent_text : forall (A : arith) cur ds g tb,
+  render_table A false cur ds g = Ok tb ->
+  Forall (Forall (fun c => forallb is_text (cell_amounts c) = true)) (tb_rows tb) /\
+  Forall (fun p => is_text (pm_amt p) = true) (tb_values tb).
+Proof. exact RenderProps.default_view_is_cent_text. Qed.
+Check C06_default_view_is_cent_text : forall (A : arith) cur ds g tb,
+  render_table A false cur ds g = Ok tb ->
+  Forall (Forall (fun c => forallb is_text (cell_amounts c) = true)) (tb_rows tb) /\
+  Forall (fun p => is_text (pm_amt p) = true) (tb_values tb).
+Print Assumptions C06_default_view_is_cent_text.
